@@ -19,7 +19,53 @@ let hex_of_zs l =
   if l = [] then "-" else String.concat "" (List.map (fun z -> Printf.sprintf "%02x" (BZ.to_int z)) l)
 let zs_of_hex h = List.map C14_model.bz (bytes_of_hex h)
 
+(* ---- the calls of the public API as model requests (Model/Bip39.v: mreq / answer / run_session) ----
+   order: comma-separated list numbers (directory order of the word-list files); a sentence: words separated by ';',
+   a word = its comma-separated positions in the nine lists (-1 = absent); flags: 0 / 1 *)
+let rec int_of_nat = function O -> 0 | S n -> 1 + int_of_nat n
+let nats_of_str s =
+  if s = "-" then [] else List.map (fun x -> nat_of_int (int_of_string x)) (String.split_on_char ',' s)
+let profs_of_str s =
+  if s = "-" then [] else List.map zs_of_str (String.split_on_char ';' s)
+let flag s = (s = "1")
+
+let mreq_of = function
+  | ["xmn"; a; c; h] -> Some (RqMnemonic (flag a, flag c, bytes_of_hex h))
+  | ["xent"; o; self; f; ws] ->
+      Some (RqEntropy (nats_of_str o, nat_of_int (int_of_string self), flag f, profs_of_str ws))
+  | ["xseed"; o; self; v; ws; snfkd; pw; pwnfkd] ->
+      let sn = bytes_of_hex snfkd in
+      Some (RqSeed (nats_of_str o, nat_of_int (int_of_string self), flag v, profs_of_str ws, (sn, sn),
+                    (bytes_of_hex pw, bytes_of_hex pwnfkd)))
+  | ["xdet"; o; ws] -> Some (RqDetect (nats_of_str o, profs_of_str ws))
+  | ["xsan"; o; ws] -> Some (RqSanitize (nats_of_str o, profs_of_str ws))
+  | _ -> None
+
+let str_of_mres = function
+  | RsIdx l -> str_of_zs l
+  | RsBytes b -> hex_of_bytes b
+  | RsQuery (p, s) -> "Q " ^ hex_of_bytes p ^ " " ^ hex_of_bytes s
+  | RsLang k -> "L" ^ string_of_int (int_of_nat k)
+  | RsOk -> "OK"
+  | RsErr -> "ERR"
+
+(* split a token list at the "|" tokens *)
+let split_bar toks =
+  let rec go cur acc = function
+    | [] -> List.rev (List.rev cur :: acc)
+    | "|" :: r -> go [] (List.rev cur :: acc) r
+    | t :: r -> go (t :: cur) acc r in
+  go [] [] toks
+
 let dispatch = function
+  | "seq" :: rest ->
+      let subs = List.map mreq_of (split_bar rest) in
+      if List.exists (fun x -> x = None) subs then "BADREQ"
+      else
+        let rs = run_session (List.map (function Some r -> r | None -> assert false) subs) in
+        String.concat " | " (List.map str_of_mres rs)
+  | ("xmn" | "xent" | "xseed" | "xdet" | "xsan") :: _ as toks ->
+      (match mreq_of toks with Some r -> str_of_mres (answer r) | None -> "BADREQ")
   | ["cb10_2"; n; m] -> opt str_of_bits (lib_cb_10_2 (z_of n) (nat_of_int (int_of_string m)))
   | ["cb256_2"; h; m] -> str_of_bits (lib_cb_256_2 (zs_of_hex h) (nat_of_int (int_of_string m)))
   | ["cb2_2048"; b] -> str_of_zs (lib_cb_2_2048 (bits_of_str b))
